@@ -136,6 +136,34 @@ theorem idx_le_of_name_le {i1 b1 i2 b2 : Str} (h1 : checkIndex i1 = true) (h2 : 
     · have := char_lt_toNat hlt; omega
     · omega
 
+/-- for two-digit indices the string order Go's `sortPlugins` uses (`p.idx < q.idx`) is the
+    numeric order — leading zeros included ("08" and "09" lie between "07" and "10") -/
+theorem idx_strLe_iff {i1 i2 : Str} (h1 : checkIndex i1 = true) (h2 : checkIndex i2 = true) :
+    strLe i1 i2 = true ↔ idxVal i1 ≤ idxVal i2 := by
+  obtain ⟨a1, c1, rfl, ha1, hc1⟩ := checkIndex_shape h1
+  obtain ⟨a2, c2, rfl, ha2, hc2⟩ := checkIndex_shape h2
+  have da1 := isDigit_val ha1; have dc1 := isDigit_val hc1
+  have da2 := isDigit_val ha2; have dc2 := isDigit_val hc2
+  simp only [strLe, Bool.or_eq_true, decide_eq_true_eq, Bool.and_eq_true, idxVal, and_true]
+  constructor
+  · rintro (hlt | ⟨rfl, hrest⟩)
+    · have := char_lt_toNat hlt; omega
+    · rcases hrest with hlt | rfl
+      · have := char_lt_toNat hlt; omega
+      · omega
+  · intro hle
+    rcases Nat.lt_trichotomy a1.toNat a2.toNat with h | h | h
+    · left; exact Char.lt_def.mpr (UInt32.lt_iff_toNat_lt.mpr h)
+    · have : a1 = a2 := Char.toNat_inj.mp h
+      subst this
+      right
+      refine ⟨rfl, ?_⟩
+      rcases Nat.lt_trichotomy c1.toNat c2.toNat with h' | h' | h'
+      · left; exact Char.lt_def.mpr (UInt32.lt_iff_toNat_lt.mpr h')
+      · right; exact Char.toNat_inj.mp h'
+      · omega
+    · omega
+
 /-! ### sorting by name -/
 
 theorem strLe_refl (a : Str) : strLe a a = true := by
